@@ -20,6 +20,8 @@ package sql
 import (
 	"github.com/pkg/errors"
 
+	"seata.apache.org/seata-go/pkg/util/log"
+
 	"seata.apache.org/seata-go/pkg/datasource/sql/undo"
 )
 
@@ -37,6 +39,16 @@ func (tx *ATTx) Commit() error {
 	defer tx.resetAutoCommit()
 	tx.tx.beforeCommit()
 	return tx.commitOnAT()
+}
+
+// rollbackLocal rolls the underlying local transaction back after a failed phase one.
+func (tx *ATTx) rollbackLocal() {
+	if tx.tx.target == nil {
+		return
+	}
+	if err := tx.tx.target.Rollback(); err != nil {
+		log.Errorf("rollback local transaction after failed phase one: %v", err)
+	}
 }
 
 func (tx *ATTx) resetAutoCommit() {
@@ -64,6 +76,9 @@ func (tx *ATTx) Rollback() error {
 func (tx *ATTx) commitOnAT() error {
 	originTx := tx.tx
 	if err := originTx.register(originTx.tranCtx); err != nil {
+		// without a branch nothing may be committed, and database/sql considers the transaction finished
+		// after Commit whatever it returns: give the local transaction up here
+		tx.rollbackLocal()
 		return err
 	}
 
@@ -73,6 +88,7 @@ func (tx *ATTx) commitOnAT() error {
 	}
 
 	if err = undoLogMgr.FlushUndoLog(originTx.tranCtx, originTx.conn.targetConn); err != nil {
+		tx.rollbackLocal()
 		if rerr := originTx.report(false); rerr != nil {
 			return errors.WithStack(rerr)
 		}
